@@ -190,7 +190,12 @@ CHECKS.update({
         "truncate) plus sampled double/triple damage, x 5 parsers; ill-formed "
         "lists must raise LexerError/ParseError, still-well-formed lists must "
         "load to the recogniser's tree; every returning load is checked "
-        "against the two trace laws.",
+        "against the three trace laws ('=' conservation, no module after a "
+        "throw into the lexer, module only after END was read or the lexer "
+        "reached the end of the text); character-level damage of generated "
+        "and corpus labels and a coverage-guided stage (atheris/libFuzzer "
+        "over the corpus, fixed seed and run count) are judged by the laws "
+        "alone.",
         "Recogniser = vlib/refmodel.py (ambiguity => no verdict, empty blocks "
         "accepted, nothing after END read). One listed finding (OmniParser "
         "unwinding).",
